@@ -71,7 +71,7 @@ def account(c, traces):
                     ntr += 1
                     npk = len(ev["pkts"])
                     continue
-                evs += 2 * npk
+                evs += 3 * npk
                 if 0 < len(ev["true1"]) < npk:      # the expression separates the packet grid
                     distinct.add(json.dumps(ev["ast"], sort_keys=True))
                     if sample is None and len(ev["text"]) > 30:
